@@ -425,6 +425,7 @@ contract(SCH + "._Enc", modifies_ghost=["rng_n", "sample0"], params=dict(self=SC
                     "K1 == prf('sha1', self.config.param_lambda, K, b'\\x01' + keyword)",
                     "K2 == prf('sha1', self.config.param_lambda, K, b'\\x02' + keyword)",
                     ])},     # (A and the free list are not touched by loop 3: what loop 2 established about them is still known)
+         budget=5,     # heavy quantified context (two nested loops, three quantified invariants): the search is sensitive to the solver's seed
          no_runtime=True, props=["C01", "C02", "C05", "C06"])
 
 # ---- Search: given Repr (dictionary part + array part over the same sampled arrangement) and the token of gq, the result is DB[gq] --------
@@ -471,6 +472,15 @@ lemma("bitlen_pos", [x_], Imp(x_ >= 1, bitlen(x_) >= 1), patterns=None, uses=["b
 lemma("bl_len_nonneg", [ids2_], Len(ids2_) >= 0, patterns=None)      # (used to name a ground term whose definition is then unfolded)
 lemma("mul_div_cancel", [a_, c_], Imp(c_ > 0, (c_ * a_) / c_ == a_), patterns=None, uses=["div_mod_unique"],
       use_inst=[("div_mod_unique", [c_ * a_, c_, a_, z3.IntVal(0)])])
+_X = lambda: part(ids2_, cap2_, cap2_ * s2_)[t2_]
+lemma("ptr_block_parse", [ids2_, cap2_, s2_, t2_, k_],
+      Imp(And(all_len_upto(ids2_, s2_, k_), nz_upto(ids2_, k_), k_ == Len(ids2_), cap2_ > 0, s2_ > 0, 0 <= t2_, t2_ * cap2_ < Len(ids2_)),
+          And(Len(_X()) == cap2_ * s2_, Len(_X()) / cap2_ == s2_,
+              parse(_X(), Len(_X()) / cap2_) == z3.Extract(ids2_, t2_ * cap2_, mn(t2_ * cap2_ + cap2_, Len(ids2_)) - t2_ * cap2_))),
+      patterns=None, uses=["part_block_len", "mul_div_cancel", "part_nth", "parse_block_k"],
+      use_inst=[("part_block_len", [ids2_, cap2_, s2_, t2_, k_]), ("mul_div_cancel", [s2_, cap2_]),
+                ("part_nth", [ids2_, cap2_, cap2_ * s2_, z3.IntVal(0), t2_]),
+                ("parse_block_k", [ids2_, s2_, cap2_, cap2_ * s2_, t2_ * cap2_, k_])])
 G_ARGS = "self.config.param_lambda, gK, gDB, self.config.param_B, self.config.param_b, sample0, len(edb.A)"
 TOP = "len(edb.A) - 2 - blocks_upto(gDB, kwpos(gDB, gq), self.config.param_B)"
 NBK = "cdivf(len(gDB[gq]), self.config.param_B)"
@@ -489,20 +499,16 @@ contract(SCH + "._Search", params=dict(self=SCHT, edb=EDBT, tk=TOKT), returns=RE
                                "tk.K2 == prf('sha1', self.config.param_lambda, gK, b'\\x02' + gq)"],
          ensures=["result.result == (gDB[gq] if gq in gDB else [])"],
          locals={"result": BL, "index_list": BL},
-         lemmas=["A2_prf_injective", "A6_prf_len", "dec_enc", "ptrl_len", "blocks_nonneg", "bitlen_bound", "pow2_mono", "parse_arg_cong"],
+         lemmas=["A2_prf_injective", "A6_prf_len", "dec_enc", "ptrl_len", "blocks_nonneg", "bitlen_bound", "pow2_mono"],
          loops={0: dict(invariant=["c >= 0", "c <= " + NPB,
                                    "index_list == (%s[:min(c * self.config.param_b, %s)] if gq in gDB else [])" % (PL_, NBK)],
-                        hints=[("part_nth", [PL_, "self.config.param_b", "self.config.param_b * (%s)" % ISZ, "0", "c"]),
-                               ("part_len", [PL_, "self.config.param_b", "self.config.param_b * (%s)" % ISZ, "0"]),
-                               ("parse_block_k", [PL_, ISZ, "self.config.param_b", "self.config.param_b * (%s)" % ISZ, "c * self.config.param_b", NBK]),
+                        hints=[("ptr_block_parse", [PL_, "self.config.param_b", ISZ, "c", NBK]),
                                ("ext_append", [PL_, "c * self.config.param_b", "min(c * self.config.param_b + self.config.param_b, %s) - c * self.config.param_b" % NBK]),
                                ("mul_mono", ["c + 1", "cdivf(%s, self.config.param_b)" % NBK, "self.config.param_b"]),
                                ("div_bounds", [NBK + " + self.config.param_b - 1", "self.config.param_b"]),
                                ("bl_len_nonneg", ["ipay(sample0, len(edb.A), gDB, gq, self.config.param_B, self.config.param_b, %s)" % ISZ]),
-                               ("part_block_len", [PL_, "self.config.param_b", ISZ, "c", NBK]),
                                ("bitlen_pos", ["len(edb.A) - 1"]),
                                ("div_lower", ["len(gDB[gq]) + self.config.param_B - 1", "1", "self.config.param_B"]),
-                               ("mul_div_cancel", [ISZ, "self.config.param_b"]),
                                ("ptrl_all_len", ["sample0", TOP, NBK, ISZ]),
                                ("ptrl_nz", ["sample0", TOP, NBK, ISZ, "len(edb.A)"]),
                                ("bitlen_bound", ["len(edb.A) - 1"]), ("pow2_mono", ["bitlen(len(edb.A) - 1)", "8 * (%s)" % ISZ]),
@@ -526,7 +532,7 @@ contract(SCH + "._Search", params=dict(self=SCHT, edb=EDBT, tk=TOKT), returns=RE
                                ("div_lower", ["len(gDB[gq]) + self.config.param_B - 1", "1", "self.config.param_B"]),
                                ("blocks_mono2", ["gDB", "kwpos(gDB, gq) + 1", "len(gDB)", "self.config.param_B"])])},
          unfold_only=["pt_repr", "pt_inv", "a_inv", "valid_db", "ne_db", "part", "is_enc", "dec", "dec_ok", "ipay", "cdivf", "blocks_upto", "kwpos"],
-         depth=2, no_runtime=True, props=["C01", "C02"])
+         budget=5, no_runtime=True, props=["C01", "C02"])
 
 inline("toolkit/prf/__init__.py:get_prf_implementation", "toolkit/symmetric_encryption/__init__.py:get_symmetric_encryption_implementation",
        "schemes/interface/config.py:SSEConfig.__init__", "schemes/interface/config.py:SSEConfig.check_param_exist",
